@@ -140,9 +140,44 @@ def kernel_runs(col, rng, tier):
         col.add({"sig": f"native::da::kernel::{kind}", "what": f"{kind}: {bad}", "input": {"kernel": kind, "transitions_per_adaptation_epoch": n_tr}} if bad else None)
 
 
+def divergent_case(col):
+    """NUTS / HMC on a target with a stiff wall (standard normal, 1e8 quadratic wall beyond |x| = 1), step size 0.3: trajectories that take good
+    steps and then diverge report a POSITIVE acceptance probability with divergent=True; the dual averaging must follow the recurrence for the
+    acceptance probabilities the kernel reports - divergent or not"""
+    model = gs.DictInterface(lambda s: -0.5 * jnp.sum(s["x"] ** 2) - 1e8 * jnp.sum(jnp.maximum(jnp.abs(s["x"]) - 1.0, 0.0) ** 2))
+    for kind, make in (("NUTS", lambda: gs.NUTSKernel(["x"], initial_step_size=0.3, max_treedepth=5)), ("HMC", lambda: gs.HMCKernel(["x"], initial_step_size=0.3, num_integration_steps=6))):
+        k = make()
+        k.set_model(model)
+        key = jax.random.PRNGKey(5)
+        ms = {"x": jnp.array([0.2], jnp.float32)}
+        ks = k.init_state(key, ms)
+        ep = EpochConfig(EpochType.FAST_ADAPTATION, 40, 1, None).to_state(1, 0)
+        ks = k.start_epoch(key, ks, ms, ep)
+        ref = Ref(float(ks.step_size), k.da_target_accept, k.da_gamma, k.da_kappa, k.da_t0)
+        ref.restart(float(ks.step_size))
+        trans = jax.jit(k.transition)
+        bad, n_div = None, 0
+        for t in range(40):
+            key, sub = jax.random.split(key)
+            out = trans(sub, ks, ms, ep)
+            ks, ms = out.kernel_state, out.model_state
+            a = float(out.info.acceptance_prob)
+            n_div += int(bool(out.info.divergent) and a > 0)
+            ref.step(a)
+            if not (close(ks.step_size, ref.eps) and close(ks.log_avg_step_size, ref.log_eps_bar)):
+                bad = f"t={t}: reported acceptance probability {a:.4f} (divergent={bool(out.info.divergent)}): step size {float(ks.step_size)} vs the recurrence {ref.eps}"
+                break
+            ep.advance_time(1)
+        col.add({"sig": f"native::da::divergent::{kind}", "what": f"{kind}: {bad}", "input": {"kernel": kind, "target": "normal with a stiff wall", "divergent_transitions_with_positive_acceptance": n_div}} if bad else None)
+
+
 def bounded(tier, seed):
     rng = np.random.default_rng(seed)
     col = util.Collector()
+    try:
+        divergent_case(col)
+    except Exception as e:
+        col.add({"sig": f"native::da::exception::{type(e).__name__}", "what": str(e)[:200], "input": {"scenario": "divergent transitions"}})
     n_seq, length = (12, 15) if tier == "quick" else (300, 60)
     da_sequences(col, rng, n_seq, length)
     kernel_runs(col, rng, tier)
@@ -151,7 +186,7 @@ def bounded(tier, seed):
         "distinct_nontrivial": col.evals,
         "rule": (f"BOUNDED: real da_init/da_step/da_finalize on {n_seq} seeded (eps0, delta, gamma, kappa, t0, alpha sequence of length {length}) x 2 epochs "
                  "against a float64 reference of H&G Alg. 5 (relative tolerance 2e-4, float32 code), with a monotonicity probe at every step; "
-                 "the five adapting kernels (RW, IWLS, HMC, NUTS, MH with tuning) driven through FAST/SLOW/BURNIN/POSTERIOR epochs on a Gaussian dict model. "
+                 "the five adapting kernels (RW, IWLS, HMC, NUTS, MH with tuning) driven through FAST/SLOW/BURNIN/POSTERIOR epochs on a Gaussian dict model; NUTS and HMC on a target with a stiff wall (divergent transitions with positive acceptance probability). "
                  "Each sequence / kernel run is one distinct case."),
         "samples": [{"kernel": "NUTS", "epochs": ["FAST", "SLOW", "BURNIN", "POSTERIOR"]}],
         "exhaustive": False,
